@@ -117,52 +117,62 @@ func sortStrings(s []string) {
 func TestVerif_C36_pinned(t *testing.T) {
 	e := c36Setup(t)
 	defer os.RemoveAll(e.root)
-	for _, p := range c36Pinned {
-		p := p
-		t.Run(p.id, func(t *testing.T) {
-			fp, names := p.fingerprint()
-			variants := []c36Variant{{}, {noBatch: true}}
-			if p.format != "" {
-				variants = variants[:1]
+	// the pinned cases are independent (own repositories): they run in parallel; the group returns when all are done
+	t.Run("all", func(t *testing.T) {
+		for i, p := range c36Pinned {
+			i, p := i, p
+			t.Run(p.id, func(t *testing.T) {
+				t.Parallel()
+				c36RunPinned(t, e, i, p)
+			})
+		}
+	})
+}
+
+func c36RunPinned(t *testing.T, e *c36Env, i int, p c36PinnedCase) {
+	fp, names := p.fingerprint()
+	// quick: one dump variant per case, rotating with the seed; thorough: both
+	variants := []c36Variant{{}, {noBatch: true}}
+	if !vh.Thorough() {
+		variants = variants[(i+int(vh.BaseSeed()))%2:][:1]
+	}
+	if p.format != "" {
+		variants = []c36Variant{{}}
+	}
+	for _, v := range variants {
+		var viol, skipped string
+		var err error
+		how := "dump[" + v.String() + "]"
+		if p.format != "" {
+			how = "dump -r " + p.format + " + table import"
+			var tables []string
+			for tn := range p.tables {
+				tables = append(tables, tn)
 			}
-			for _, v := range variants {
-				var viol, skipped string
-				var err error
-				if p.format != "" {
-					var tables []string
-					for tn := range p.tables {
-						tables = append(tables, tn)
-					}
-					sortStrings(tables)
-					viol, skipped, err = e.rawFormatRoundTrip(p.build, p.schema, tables, fp, names, p.format, false)
-				} else {
-					viol, skipped, err = e.rawRoundTrip(p.build, fp, names, v, false)
-				}
-				if err != nil {
-					vh.Inconclusive(t, "child process trouble: %v", err)
-				}
-				if skipped != "" {
-					vh.Inconclusive(t, "pinned build script of %s rejected: %s", p.id, skipped)
-				}
-				if viol == "" {
-					if c36IsOpen(p.id) {
-						t.Logf("%s is listed open but dump[%s] reproduces the pinned database", p.id, v)
-					}
-					continue
-				}
-				first := strings.SplitN(viol, "\n", 2)[0]
-				if c36IsOpen(p.id) {
-					how := "dump[" + v.String() + "]"
-					if p.format != "" {
-						how = "dump -r " + p.format + " + table import"
-					}
-					vh.ReportKnown("C36", p.id, p.what+" — "+how+": "+first)
-					return
-				}
-				vh.NoteViolation(t.Name(), "", fmt.Sprintf("%s: %s\ndump[%s]\n%s\n--- build script ---\n%s", p.id, p.what, v, viol, p.build))
-				t.Errorf("C36 violated (pinned %s): %s\n%s\n--- build script ---\n%s", p.id, p.what, viol, p.build)
-				return
+			sortStrings(tables)
+			viol, skipped, err = e.rawFormatRoundTrip(p.build, p.schema, tables, fp, names, p.format, false)
+		} else {
+			viol, skipped, err = e.rawRoundTrip(p.build, fp, names, v, false)
+		}
+		if err != nil {
+			vh.Inconclusive(t, "child process trouble: %v", err)
+		}
+		if skipped != "" {
+			vh.Inconclusive(t, "pinned build script of %s rejected: %s", p.id, skipped)
+		}
+		if viol == "" {
+			if c36IsOpen(p.id) {
+				t.Logf("%s is listed open but %s reproduces the pinned database", p.id, how)
 			}
-		})
+			continue
+		}
+		first := strings.SplitN(viol, "\n", 2)[0]
+		if c36IsOpen(p.id) {
+			vh.ReportKnown("C36", p.id, p.what+" — "+how+": "+first)
+			return
+		}
+		vh.NoteViolation(t.Name(), "", fmt.Sprintf("%s: %s\n%s\n%s\n--- build script ---\n%s", p.id, p.what, how, viol, p.build))
+		t.Errorf("C36 violated (pinned %s): %s\n%s\n--- build script ---\n%s", p.id, p.what, viol, p.build)
+		return
 	}
 }
